@@ -102,7 +102,15 @@ func (m singleModel) Initialise() (error, TimeSteppingModel, data.ND3Float64, da
 			inputs = data.NewArray3DFloat64(1, len(desc.Inputs), len(thisInput))
 		}
 
+		if len(thisInput) != inputs.Len3() {
+			return errors.New(fmt.Sprintf("Input %s has %d values, expected %d", p, len(thisInput), inputs.Len3())), nil, nil, nil, warnings
+		}
+
 		inputs.Apply([]int{0, i, 0}, 2, 1, thisInput)
+	}
+
+	if inputs == nil {
+		inputs = data.NewArray3DFloat64(1, len(desc.Inputs), 0)
 	}
 
 	return nil, model, inputs, states, warnings
